@@ -207,6 +207,10 @@ func (f *Frame) checkReturn(e Exit) {
 	env := f.envPost(e.St, f.resultBindings(e))
 	for i, en := range con.Ensures {
 		po := vc.obligeLater("post", fmt.Sprintf("%s#post:%d@%s", name, i+1, anchor), e.Cond, env.evalBool(en.E), f.pos(e.Pos), en.Src)
+		if len(en.Only) > 0 {
+			po.Props = en.Only
+			po.Scoped = true
+		}
 		rn := f.fn.Signature.Results()
 		for ri := 0; ri < rn.Len() && ri < len(e.Results); ri++ {
 			rv := e.Results[ri]
